@@ -225,6 +225,17 @@ def _returned_moves_legal(res, ctx, findings, tree, whole, draws):
                 findings.append(Finding("illegal-move-returned", "select_root_move raised %s: %s" % (type(e).__name__, str(e)[:100])))
                 break
             moves.append(("select_root_move", m, ser.pos_str(t.position)))
+        # ... and EVERY outcome the sampler can draw with positive probability, one after the other
+        swept = 0
+        for t in roots:
+            for k in range(min(len(t.children), 160)):
+                rec.sampler = "nth:%d" % k
+                try:
+                    m = engine.select_root_move(t)
+                except Exception:
+                    break
+                moves.append(("select_root_move(every outcome)", m, ser.pos_str(t.position)))
+                swept += 1
     rec.sampler = rec.sampler_backup
     if case["budget"] <= 30 and case["evaluator"] != "network":
         ev2 = td.Recorder(td.make_evaluator(case), case["sampler"], case["sseed"] + 1)
